@@ -198,3 +198,37 @@ def check_C01(tier, seed):
     v.coverage["checker_cmd"] += " ; tlc TraceTables (I_C01_Sweep)"
     v.assumptions.append("sizes around 4096 and 8192 (the two read-buffer sizes Stream chooses: st_blksize of a file on this file system, 8192 for in-memory streams)")
     return v.finish()
+
+
+def check_C19(tier, seed):
+    from . import walker, tlc
+    from .ids import Inst
+    v = Verdict("C19", tier, seed, "model_checking")
+    cfg = seqcheck.CONFIGS["obj2" if tier == "quick" else "obj3"]
+    inst = Inst(**cfg["inst"])
+    consts = dict(inst.constants())
+    consts["Ops"] = ["store", "storenp", "tag", "delete", "dii"]
+    mc = seqcheck.model_check(consts, v)          # includes I_C19_Converge on every state
+    paths, calls, pr = walker.contract_paths(consts)
+    recs = walker.walk_pairs(cfg["inst"], paths)
+    viol, drift, r = walker.judge_flat("TraceConverge", "TraceConverge.cfg.tmpl",
+                                       {"records": recs}, consts, len(recs))
+    v.drift += len(drift)
+    for name, k in viol:
+        rec = recs[k - 1]
+        desc = {"clause": name, "pid": rec["pid"], "c": rec["c"], "val": rec["val"],
+                "one": rec["one"]["res"]["cls"], "two": rec["two"]["res"]["cls"],
+                "states_equal": rec["one"]["st"] == rec["two"]["st"]}
+        v.violation(desc, {"kind": "converge", "clause": name, "inst": cfg["inst"],
+                           "history": paths[rec["state"]], "record": rec,
+                           "how": "replay `history` on two fresh stores, then run procedure one on "
+                                  "the first and procedure two on the second"})
+    v.coverage.update({"states": mc.distinct, "transitions": mc.generated,
+                       "contract_store_states": len(paths),
+                       "traces_validated_against_impl": len(recs),
+                       "pairs_of_procedures_compared": len(recs), "exhaustive": True,
+                       "samples": [{k: recs[len(recs) // 2][k] for k in ("pid", "c", "val", "one", "two")}],
+                       "checker_cmd": "tlc MCContract (I_C19_Converge) ; tlc TraceConverge"})
+    v.assumptions.append("validation data: none / correct / wrong checksum / wrong size under SHA-256; "
+                         "non-default algorithms and letter case are swept by the C06 table check")
+    return v.finish()
